@@ -317,6 +317,11 @@ def _v_assumptions_after_queue(tree):
     g.body.insert(len(g.body) - 1, blk[0])
 
 
+def _v_no_clauses_ignores_assumptions(tree):
+    g = M.find_func(tree, "solve_sat")
+    M.replace_expr(g, lambda e: M.src_is(e, "not clauses and (not assumptions)"), M.expr("not clauses"))
+
+
 def _v_flag_kept_on_skip(tree):
     g = M.find_func(tree, "solve_sat.pick_var")
     M.replace_stmt(g, lambda s: M.src_is(s, "in_heap[var] = False"), [])
@@ -368,6 +373,7 @@ VARIANTS = [
     M.Variant("driver records the backjump level without undoing the trail", SAT, _v_no_backjump, "C01-O12"),
     M.Variant("activity rescale rebuilds the heap from the unassigned variables (seed C01-G)", SAT, _v_heap_rebuilt_on_rescale, "C01-O7"),
     M.Variant("assumptions asserted after the propagation queue was processed (seed C01-H)", SAT, _v_assumptions_after_queue, "C01-O10"),
+    M.Variant("the no-clauses shortcut ignores the assumptions (original defect)", SAT, _v_no_clauses_ignores_assumptions, "C01-O12"),
     M.Variant("twin: reformat only", SAT, _t_reformat, None),
     M.Variant("twin: rename locals of the backtrack routine", SAT, _t_rename, None),
     M.Variant("twin: backtrack written as pop-and-cut loop", SAT, _t_pop_form, None),
